@@ -341,7 +341,12 @@ def check_c11(run):
     n = 3 if run.tier == "quick" else 4
     starts = ["http://h/?" + "".join(w) for k in range(0, n + 1) for w in itertools.product(alpha, repeat=k)]
     deep = ["x:o?" + "".join(w) for k in range(0, 7 if run.tier == "quick" else 9) for w in itertools.product("a=&", repeat=k)]
-    run_api_families(run, [ApiFamily("formparse", starts, depth=1, with_law=True), ApiFamily("formparse_deep", deep, depth=1, with_law=True)],
+    # escaped bytes that are not valid UTF-8 after decoding, alone and in RUNS (one U+FFFD per byte, truncated and over-long sequences, a valid
+    # two-byte sequence next to them): raw invalid bytes never reach the list parser (the URL parser replaces them first), escapes do
+    toks = ["%FF", "%80", "%E2%82", "%C3%A9", "%C3", "a", "=", "&"]
+    esc = ["http://h/?" + "".join(w) for k in range(1, 4 if run.tier == "quick" else 5) for w in itertools.product(toks, repeat=k)]
+    run_api_families(run, [ApiFamily("formparse", starts, depth=1, with_law=True), ApiFamily("formparse_deep", deep, depth=1, with_law=True),
+                           ApiFamily("formparse_bytes", esc, depth=1, with_law=True)],
                      keys="href,query,search", spmodes="early")
     run.assumptions += ["invalid UTF-8 bytes in a stored name/value count as U+FFFD, one per byte (only bytes 0x80 and 0xFF are generated, where Go's per-byte "
                         "rule and the standard's maximal-subpart rule agree)",
@@ -937,7 +942,7 @@ def check_c16(run):
             k -= 1
         return False
     neutral_t = list(TRIG) if not q else r_.sample(list(TRIG), 1)
-    notes_only = [] if q else ["skip_trailing", "pre_host_trim", "pre_host_const", "post_host_const"]
+    notes_only = [] if q else ["skip_trailing", "pre_host_trim", "pre_host_const", "post_host_const", "latin1"]
     drift = 0
     for i, pn in enumerate(neutral_t + notes_only):
         bad, nev = run.record_and_validate(1200 if q else 8000, seed_salt=180 + i, parser=pn, parse_only=40)
